@@ -1,0 +1,40 @@
+//go:build verif
+// +build verif
+
+/*
+SPDX-License-Identifier: Apache-2.0
+*/
+
+package subtle
+
+import "math/big"
+
+// VerifIEEEP1363Encode exposes ieeeP1363Encode for the secp256k1 curve (verification hook).
+func VerifIEEEP1363Encode(r, s *big.Int) ([]byte, error) {
+	return ieeeP1363Encode(&Secp256k1Signature{R: r, S: s}, "secp256k1")
+}
+
+// VerifIEEEP1363Decode exposes ieeeP1363Decode (verification hook).
+func VerifIEEEP1363Decode(b []byte) (*big.Int, *big.Int, error) {
+	sig, err := ieeeP1363Decode(b)
+	if err != nil {
+		return nil, nil, err
+	}
+
+	return sig.R, sig.S, nil
+}
+
+// VerifASN1Encode exposes asn1encode (verification hook).
+func VerifASN1Encode(r, s *big.Int) ([]byte, error) {
+	return asn1encode(&Secp256k1Signature{R: r, S: s})
+}
+
+// VerifASN1Decode exposes asn1decode (verification hook).
+func VerifASN1Decode(b []byte) (*big.Int, *big.Int, error) {
+	sig, err := asn1decode(b)
+	if err != nil {
+		return nil, nil, err
+	}
+
+	return sig.R, sig.S, nil
+}
